@@ -1876,3 +1876,489 @@ Proof.
   split; cbn [iw_add iw_vol iw_amt]; [lra|]. intro c.
   assert (E : v * cget c (wca (lw_comp Ls) i_s) == 0) by (rewrite Hv; ring). rewrite E. ring.
 Qed.
+
+(* ------------------------------------------------------------------ distribute *)
+
+Lemma distribute_inv s ks kd dwells a : st_inv s -> st_inv (fst (distribute s ks kd dwells a)).
+Proof.
+  intro HI. unfold distribute.
+  destruct (nth_error (st_lw s) ks) as [Ls|] eqn:ELs; [|exact HI].
+  destruct (nth_error (st_lw s) kd) as [Ld|] eqn:ELd; [|exact HI].
+  pose proof (st_inv_nth s ks Ls HI ELs) as HLs.
+  destruct (g_vrows (lw_geom Ls)) as [vr|]; [|exact HI].
+  destruct (rvol_x (d_volume a)) as [xv|]; [|exact HI].
+  match goal with |- st_inv (fst (match xv with XQ _ => ?B | _ => _ end)) =>
+    assert (HB : st_inv (fst B)); [|destruct xv; [exact HB|exact HI|exact HB|exact HB]] end.
+  match goal with |- context [if ?b then (s, Some EInvalidOp) else _] => destruct b; [exact HI|] end.
+  cbv zeta.
+  match goal with |- context [if existsb ?f ?l then (s, Some EReject) else _] =>
+    destruct (existsb f l); [exact HI|] end.
+  destruct (positions_of (w_dev (st_wl s)) (lw_geom Ld) (flattenF dwells)) as [ps|e]; [|exact HI].
+  destruct (sort_Z (map Z.of_nat ps)) as [|p0 sorted']; [exact HI|].
+  match goal with |- context [if negb ?b then _ else _] => destruct (negb b); [exact HI|] end.
+  match goal with |- context [remove Ls ?w ?x ?lab] =>
+    pose proof (remove_inv Ls w x lab HLs) as HR;
+    destruct (remove Ls w x lab) as [Ls' [e|]]; cbn [fst] in HR end.
+  { cbn [fst set_lw]. unfold st_inv. cbn [st_lw]. apply Forall_upd'; [exact HI|exact HR]. }
+  assert (HI1 : st_inv (set_lw s ks Ls'))
+    by (unfold st_inv; cbn [set_lw st_lw]; apply Forall_upd'; [exact HI|exact HR]).
+  match goal with |- context [get_well_composition Ls' ?w] =>
+    destruct (get_well_composition Ls' w) as [c|e] eqn:EC; [|exact HI1] end.
+  pose proof (get_well_composition_ok Ls' _ c HR EC) as HC.
+  destruct (nth_error (st_lw (set_lw s ks Ls')) kd) as [Ld1|] eqn:ELd1; [|exact HI1].
+  pose proof (st_inv_nth _ kd Ld1 HI1 ELd1) as HLd1.
+  match goal with |- context [add Ld1 ?w ?x ?lab ?cs] =>
+    assert (HCS : comps_ok cs)
+      by (cbn [comps_ok]; apply Forall_forall; intros oc Hoc; apply repeat_spec in Hoc; subst oc; exact HC);
+    pose proof (add_inv Ld1 w x lab cs HLd1 HCS) as HA;
+    destruct (add Ld1 w x lab cs) as [Ld' [e|]]; cbn [fst] in HA end.
+  { cbn [fst set_lw]. unfold st_inv. cbn [st_lw]. apply Forall_upd'; [exact HI1|exact HA]. }
+  assert (HI2 : st_inv (set_lw (set_lw s ks Ls') kd Ld'))
+    by (unfold st_inv; cbn [set_lw st_lw]; apply Forall_upd'; [exact HI1|exact HA]).
+  destruct (ks =? kd)%nat;
+  match goal with |- context [comment (st_wl ?s2) ?lab] =>
+    assert (HI3 : st_inv s2) by (try apply condense_at_inv; exact HI2);
+    destruct (comment (st_wl s2) lab) as [w1 [e|]]; [exact HI3|] end;
+  match goal with |- context [reagent_distribution ?w ?args] =>
+    destruct (reagent_distribution w args) as [w2 e2] end; exact HI3.
+Qed.
+
+Fixpoint items_amt (k : string) (items : list (string * xnum * option composition)) : Q :=
+  match items with
+  | [] => 0
+  | (_, x, oc) :: r => (match x, oc with XQ v, Some c => v * cget k c | _, _ => 0 end) + items_amt k r
+  end.
+
+(** an accepted [add_loop] of liquids of known composition adds exactly their component amounts *)
+Lemma add_loop_amount items k : forall L L', mix_inv L -> Forall aitem_ok items ->
+  Forall (fun it => snd it <> None) items ->
+  add_loop L items = (L', None) -> lw_amount L' k == lw_amount L k + items_amt k items.
+Proof.
+  induction items as [|[[w x] oc] rest IH]; intros L L' HI HF HS H.
+  - cbn [add_loop] in H. inversion H; subst. cbn [items_amt]. ring.
+  - inversion HF as [|it r [Hv Hoc] Hrest]; subst. cbn [fst snd] in Hv, Hoc.
+    inversion HS as [|it r Hsome Hsrest]; subst. cbn [snd] in Hsome.
+    rewrite add_loop_cons' in H. destruct (lw_index L w) as [i|] eqn:Ei; [|discriminate].
+    destruct x as [v| | |]; try discriminate.
+    destruct (Qgtb (Qred (vol_at L i + v)) (lw_max L)); [discriminate|].
+    destruct oc as [c|]; [|congruence].
+    assert (Hi : (i < n_wells (lw_geom L))%nat) by (apply (lw_index_lt L w i); [apply HI|exact Ei]).
+    pose proof (vol_ok_XQ' v Hv) as Hv0.
+    rewrite (IH (add_step L i v (Some c)) L') by (try assumption; apply add_step_inv; assumption).
+    rewrite lw_amount_add_step by (try assumption; apply Hoc).
+    cbn [items_amt]. ring.
+Qed.
+
+Lemma items_amt_const k q c (wv : list (string * xnum)) : Forall (fun p => snd p = XQ q) wv ->
+  items_amt k (map (fun p => (fst (fst p), snd (fst p), snd p)) (zip wv (repeat (Some c) (length wv))))
+  == inject_Z (Z.of_nat (length wv)) * (q * cget k c).
+Proof.
+  induction 1 as [|[w x] r Hx Hr IH].
+  - cbn [length repeat zip map items_amt]. ring.
+  - cbn [snd] in Hx. subst x. cbn [length repeat zip map items_amt fst snd]. rewrite IH.
+    rewrite Nat2Z.inj_succ. unfold Z.succ. rewrite inject_Z_plus. ring.
+Qed.
+
+Lemma remove_A0_ok L w x lab L' : remove L (A0 w) (A0 x) lab = (L', None) ->
+  exists v i, x = XQ v /\ 0 <= v /\ lw_index L w = Some i /\ lw_min L <= Qred (vol_at L i - v) /\
+              L' = log (rem_step L i v) lab.
+Proof.
+  destruct x as [v| | |].
+  - change (remove L (A0 w) (A0 (XQ v)) lab) with (remove L (A1 [w]) (A1 [XQ v]) lab).
+    rewrite remove_single. destruct (Qle_bool 0 v) eqn:Ev; [|discriminate].
+    destruct (lw_index L w) as [i|] eqn:Ei; [|discriminate].
+    destruct (Qltb (Qred (vol_at L i - v)) (lw_min L)) eqn:El; [discriminate|].
+    intro H. inversion H; subst. exists v, i. split; [reflexivity|].
+    split; [apply Qle_bool_iff; exact Ev|]. split; [reflexivity|].
+    split; [apply Qltb_false'; exact El|reflexivity].
+  - unfold remove, prep_wells_vols. cbn. discriminate.
+  - unfold remove, prep_wells_vols. cbn. destruct (lw_index L w); discriminate.
+  - unfold remove, prep_wells_vols. cbn. discriminate.
+Qed.
+
+Lemma add_some_ok L wells vols label cs L' : add L wells vols label (Some cs) = (L', None) ->
+  exists wv L1, prep_wells_vols wells vols = Ok wv /\ length cs = length wv /\
+    add_loop L (map (fun p => (fst (fst p), snd (fst p), snd p)) (zip wv cs)) = (L1, None) /\
+    L' = log L1 label.
+Proof.
+  unfold add. destruct (prep_wells_vols wells vols) as [wv|e]; [|discriminate].
+  destruct (length cs =? length wv)%nat eqn:El; cbn [negb]; [|discriminate].
+  destruct (add_loop L (map (fun p => (fst (fst p), snd (fst p), snd p)) (zip wv cs))) as [L1 [e|]] eqn:EL;
+    [discriminate|].
+  intro H. inversion H; subst. exists wv, L1. split; [reflexivity|].
+  split; [apply Nat.eqb_eq; exact El|]. split; [exact EL|reflexivity].
+Qed.
+
+Lemma prep_A1_A0 dw q wv : prep_wells_vols (A1 dw) (A0 (XQ q)) = Ok wv ->
+  Forall (fun p => snd p = XQ q) wv.
+Proof.
+  unfold prep_wells_vols. cbn [flattenF broadcast].
+  destruct (negb (length (repeat (XQ q) (length dw)) =? length dw)%nat); [discriminate|].
+  destruct (negb (forallb vol_ok (repeat (XQ q) (length dw)))); [discriminate|].
+  intro H. inversion H; subst. apply (Forall_zip_r (fun x => x = XQ q)).
+  apply Forall_forall. intros x Hx. apply repeat_spec in Hx. exact Hx.
+Qed.
+
+Lemma dist_items_ok (wv : list (string * xnum)) c m :
+  Forall (fun p => vol_ok (snd p) = true) wv -> comp_ok c ->
+  Forall aitem_ok (map (fun p => (fst (fst p), snd (fst p), snd p)) (zip wv (repeat (Some c) m))) /\
+  Forall (fun it => snd it <> None)
+         (map (fun p => (fst (fst p), snd (fst p), snd p)) (zip wv (repeat (Some c) m))).
+Proof.
+  intros Hwv HC.
+  assert (HR : Forall (fun oc : option composition => oc = Some c) (repeat (Some c) m)).
+  { apply Forall_forall. intros oc Hoc. apply repeat_spec in Hoc. exact Hoc. }
+  pose proof (Forall_zip _ _ wv (repeat (Some c) m) Hwv HR) as HZ.
+  split; apply Forall_map; (eapply Forall_impl; [|exact HZ]); intros [[w x] oc] [H1 H2];
+    cbn [fst snd] in *; subst oc.
+  - split; [exact H1|exact HC].
+  - discriminate.
+Qed.
+
+(** C05_conserved for [distribute] *)
+Lemma distribute_conserved s ks kd dwells a s' k : st_inv s ->
+  distribute s ks kd dwells a = (s', None) ->
+  total_amount (st_lw s') k == total_amount (st_lw s) k.
+Proof.
+  intro HI. unfold distribute.
+  destruct (nth_error (st_lw s) ks) as [Ls|] eqn:ELs; [|discriminate].
+  destruct (nth_error (st_lw s) kd) as [Ld|] eqn:ELd; [|discriminate].
+  pose proof (st_inv_nth s ks Ls HI ELs) as HLs.
+  destruct (g_vrows (lw_geom Ls)) as [vr|]; [|discriminate].
+  destruct (rvol_x (d_volume a)) as [xv|]; [|discriminate].
+  match goal with |- match xv with XQ _ => ?B | _ => _ end = _ -> _ =>
+    assert (HB : B = (s', None) -> total_amount (st_lw s') k == total_amount (st_lw s) k);
+      [|destruct xv; [exact HB|discriminate|exact HB|exact HB]] end.
+  match goal with |- context [if ?b then (s, Some EInvalidOp) else _] => destruct b; [discriminate|] end.
+  cbv zeta.
+  match goal with |- context [if existsb ?f ?l then (s, Some EReject) else _] =>
+    destruct (existsb f l); [discriminate|] end.
+  destruct (positions_of (w_dev (st_wl s)) (lw_geom Ld) (flattenF dwells)) as [ps|e]; [|discriminate].
+  destruct (sort_Z (map Z.of_nat ps)) as [|p0 sorted']; [discriminate|].
+  match goal with |- context [if negb ?b then _ else _] => destruct (negb b); [discriminate|] end.
+  match goal with |- context [remove Ls ?w ?x ?lab] =>
+    destruct (remove Ls w x lab) as [Ls' [e|]] eqn:ER end; [discriminate|].
+  destruct (remove_A0_ok _ _ _ _ _ ER) as (V & i_s & EV & HV & Eis & Hmin & ELs').
+  assert (His : (i_s < n_wells (lw_geom Ls))%nat)
+    by (apply (lw_index_lt Ls (well_id 0 (Z.to_nat (d_source_column a))) i_s); [apply HLs|exact Eis]).
+  assert (HLs' : mix_inv Ls') by (rewrite ELs'; apply log_inv; apply rem_step_inv; assumption).
+  assert (HI1 : st_inv (set_lw s ks Ls'))
+    by (unfold st_inv; cbn [set_lw st_lw]; apply Forall_upd'; [exact HI|exact HLs']).
+  unfold get_well_composition. rewrite ELs' at 1.
+  rewrite (lw_index_geom' (log (rem_step Ls i_s V) (d_label a)) Ls _ eq_refl), Eis.
+  rewrite well_composition_at_wca.
+  assert (EC : lw_comp Ls' = lw_comp Ls) by (rewrite ELs'; reflexivity). rewrite EC.
+  destruct (nth_error (st_lw (set_lw s ks Ls')) kd) as [Ld1|] eqn:ELd1; [|discriminate].
+  pose proof (st_inv_nth _ kd Ld1 HI1 ELd1) as HLd1.
+  pose proof (wca_comp_ok Ls i_s HLs) as [HC _].
+  match goal with |- context [add Ld1 ?w ?x ?lab ?cs] =>
+    destruct (add Ld1 w x lab cs) as [Ld' [e|]] eqn:EA end; [discriminate|].
+  destruct (add_some_ok _ _ _ _ _ _ EA) as (wv & L1 & EP & Elen & EAL & ELd').
+  rewrite repeat_length in Elen.
+  (* the volume per destination is a number *)
+  destruct xv as [q| | |]; unfold xmul_nat in EV; try (destruct (length ps =? 0)%nat; discriminate).
+  assert (EV' : Qred (q * inject_Z (Z.of_nat (length ps))) = V) by congruence.
+  pose proof (prep_A1_A0 _ _ _ EP) as Hwv.
+  assert (Hamt : lw_amount Ld' k == lw_amount Ld1 k
+                   + inject_Z (Z.of_nat (length ps)) * (q * cget k (wca (lw_comp Ls) i_s))).
+  { rewrite ELd'. change (lw_amount (log L1 (d_label a)) k) with (lw_amount L1 k).
+    rewrite Elen in EAL |- *.
+    destruct (dist_items_ok wv (wca (lw_comp Ls) i_s) (length wv) (prep_wells_vols_vol_ok _ _ _ EP) HC)
+      as [HF1 HF2].
+    rewrite (add_loop_amount _ k Ld1 L1 HLd1 HF1 HF2 EAL).
+    apply Qplus_comp; [reflexivity|]. apply items_amt_const. exact Hwv. }
+  intro H.
+  assert (Es' : total_amount (st_lw s') k
+                == total_amount (upd (upd (st_lw s) ks Ls') kd Ld') k).
+  { destruct (ks =? kd)%nat;
+    match type of H with context [comment (st_wl ?s2) ?lab] =>
+      destruct (comment (st_wl s2) lab) as [w1 [e|]]; [discriminate|] end;
+    match type of H with context [reagent_distribution ?w ?args] =>
+      destruct (reagent_distribution w args) as [w2 e2] end;
+    inversion H; subst; cbn [set_wl st_lw]; rewrite ?condense_at_amount; reflexivity. }
+  rewrite Es'. cbn [set_lw st_lw] in ELd1.
+  rewrite (total_amount_upd _ kd Ld1 Ld' k ELd1), (total_amount_upd _ ks Ls Ls' k ELs), Hamt.
+  rewrite ELs'. change (lw_amount (log (rem_step Ls i_s V) (d_label a)) k) with (lw_amount (rem_step Ls i_s V) k).
+  rewrite lw_amount_rem_step by (try assumption; apply HLs).
+  rewrite wca_get_pfrac by apply HLs.
+  rewrite pfrac_nonneg by apply (comp_inv_frac Ls k i_s (proj2 HLs)).
+  rewrite <- EV', Qred_correct. ring.
+Qed.
+
+(* ------------------------------------------------------------------ the initial composition *)
+
+Lemma initial_composition_cons name multi n names w wr v vr i acc :
+  initial_composition name multi n names (w :: wr) (v :: vr) i acc =
+  if Qeq_bool v 0 then
+    match assoc_get w names with
+    | Some (Some _) => Err EValue
+    | _ => initial_composition name multi n names wr vr (S i) acc
+    end
+  else initial_composition name multi n names wr vr (S i)
+         (set_frac n acc (init_name name multi names w) i 1).
+Proof.
+  cbn [initial_composition]. unfold init_name, set_frac.
+  destruct (assoc_get w names) as [[g|]|]; reflexivity.
+Qed.
+
+(** the loop writes a 1 for every non-empty well, under the name of that well, and nothing else *)
+Lemma initial_composition_spec name multi n names : forall ws vols i acc comp,
+  length vols = length ws -> (i + length ws <= n)%nat ->
+  arrays_len n acc -> NoDup (map fst acc) -> frac_bounds acc ->
+  initial_composition name multi n names ws vols i acc = Ok comp ->
+  arrays_len n comp /\ NoDup (map fst comp) /\ frac_bounds comp /\
+  (forall k j, (j < i \/ i + length ws <= j)%nat -> frac_at comp k j = frac_at acc k j) /\
+  (forall k m, (m < length ws)%nat ->
+     frac_at comp k (i + m) =
+     if Qeq_bool (nth m vols 0) 0 then frac_at acc k (i + m)
+     else if String.eqb (init_name name multi names (nth m ws EmptyString)) k then 1
+          else frac_at acc k (i + m)).
+Proof.
+  induction ws as [|w wr IH]; intros vols i acc comp Hlen Hn HL ND HB H.
+  - assert (E : comp = acc) by (destruct vols; cbn [initial_composition] in H; inversion H; reflexivity).
+    subst comp. split; [exact HL|]. split; [exact ND|]. split; [exact HB|]. split.
+    + intros k j _. reflexivity.
+    + intros k m Hm. cbn [length] in Hm. lia.
+  - destruct vols as [|v vr]; [cbn [length] in Hlen; discriminate|].
+    cbn [length] in Hlen, Hn. rewrite initial_composition_cons in H.
+    destruct (Qeq_bool v 0) eqn:Ev.
+    + assert (H' : initial_composition name multi n names wr vr (S i) acc = Ok comp)
+        by (destruct (assoc_get w names) as [[g|]|]; [discriminate|exact H|exact H]).
+      destruct (IH vr (S i) acc comp) as (R1 & R2 & R3 & R4 & R5); try assumption; try lia.
+      split; [exact R1|]. split; [exact R2|]. split; [exact R3|]. split.
+      * intros k j Hj. apply R4. cbn [length] in Hj. lia.
+      * intros k m Hm. destruct m as [|m].
+        -- cbn [nth]. rewrite Ev. apply R4. lia.
+        -- cbn [nth length] in *. replace (i + S m)%nat with (S i + m)%nat by lia. apply R5. lia.
+    + destruct (IH vr (S i) (set_frac n acc (init_name name multi names w) i 1) comp)
+        as (R1 & R2 & R3 & R4 & R5); try assumption; try lia.
+      * apply set_frac_len. exact HL.
+      * apply set_frac_NoDup. exact ND.
+      * apply set_frac_bounds; [exact HB|lra].
+      * split; [exact R1|]. split; [exact R2|]. split; [exact R3|]. split.
+        -- intros k j Hj. cbn [length] in Hj. rewrite R4 by lia.
+           rewrite set_frac_frac by (try assumption; lia).
+           destruct (Nat.eqb_spec i j) as [E|_]; [lia|]. rewrite andb_false_r. reflexivity.
+        -- intros k m Hm. destruct m as [|m].
+           ++ cbn [nth]. rewrite Ev. rewrite Nat.add_0_r. rewrite R4 by lia.
+              rewrite set_frac_frac by (try assumption; lia). rewrite Nat.eqb_refl, andb_true_r.
+              reflexivity.
+           ++ cbn [nth length] in *. replace (i + S m)%nat with (S i + m)%nat by lia.
+              rewrite R5 by lia. rewrite set_frac_frac by (try assumption; lia).
+              destruct (Nat.eqb_spec i (S i + m)) as [E|_]; [lia|]. rewrite andb_false_r. reflexivity.
+Qed.
+
+(** started on the empty table *)
+Lemma initial_composition_top name multi n names ws vols comp :
+  length vols = n -> length ws = n ->
+  initial_composition name multi n names ws vols 0 [] = Ok comp ->
+  arrays_len n comp /\ NoDup (map fst comp) /\ frac_bounds comp /\
+  forall k j, (j < n)%nat ->
+    frac_at comp k j =
+    if Qeq_bool (nth j vols 0) 0 then 0
+    else if String.eqb (init_name name multi names (nth j ws EmptyString)) k then 1 else 0.
+Proof.
+  intros Hv Hw H.
+  assert (H1 : length vols = length ws) by lia.
+  assert (H2 : (0 + length ws <= n)%nat) by lia.
+  destruct (initial_composition_spec name multi n names ws vols 0%nat [] comp H1 H2
+              (Forall_nil _) (NoDup_nil _) (Forall_nil _) H) as (R1 & R2 & R3 & _ & R5).
+  split; [exact R1|]. split; [exact R2|]. split; [exact R3|].
+  intros k j Hj. rewrite <- (Nat.add_0_l j) at 1. rewrite R5 by lia. reflexivity.
+Qed.
+
+(** column sums of a table whose columns are indicator columns *)
+Lemma indicator_col_sum comp j name0 : NoDup (map fst comp) ->
+  (forall k, frac_at comp k j = if String.eqb name0 k then 1 else 0) -> col_sum comp j == 1.
+Proof.
+  intros ND H. rewrite <- (col_sum_keys comp j (map fst comp) ND ND (fun k Hk => Hk)).
+  rewrite (Qsum_map_ext (fun k => frac_at comp k j) (fun k => if String.eqb name0 k then 1 else (fun _ => 0) k))
+    by (intros k _; rewrite H; reflexivity).
+  rewrite Qsum_map_point.
+  - rewrite Qsum_map_zero by (intros; reflexivity). ring.
+  - exact ND.
+  - (* the name is a key: its entry is 1, not the default 0 *)
+    destruct (in_dec string_dec name0 (map fst comp)) as [Hin|Hnin]; [exact Hin|].
+    pose proof (H name0) as H1. rewrite String.eqb_refl, frac_at_notin in H1 by exact Hnin. discriminate.
+Qed.
+
+Lemma zero_col_sum comp j : (forall k, frac_at comp k j = 0) -> NoDup (map fst comp) -> col_sum comp j == 0.
+Proof.
+  intros H ND. rewrite <- (col_sum_keys comp j (map fst comp) ND ND (fun k Hk => Hk)).
+  apply Qsum_map_zero. intros k _. rewrite H. reflexivity.
+Qed.
+
+(* ------------------------------------------------------------------ the constructors *)
+
+Definition real_ids (rows cols : nat) : list string :=
+  concat (map (fun r => map (fun c => well_id r c) (seq 0 cols)) (seq 0 rows)).
+
+Lemma rows_concat_length {A} (f : nat -> nat -> A) cols (l : list nat) :
+  length (concat (map (fun r => map (f r) (seq 0 cols)) l)) = (length l * cols)%nat.
+Proof.
+  induction l as [|r l IH]; [reflexivity|].
+  cbn [map concat length]. rewrite app_length, map_length, seq_length, IH. lia.
+Qed.
+
+Lemma rows_concat_nth {A} (f : nat -> nat -> A) d cols : forall rows s r c,
+  (r < rows)%nat -> (c < cols)%nat ->
+  nth (r * cols + c) (concat (map (fun r => map (f r) (seq 0 cols)) (seq s rows))) d = f (s + r)%nat c.
+Proof.
+  induction rows as [|rows IH]; intros s r c Hr Hc; [lia|].
+  cbn [seq map concat]. destruct r as [|r].
+  - rewrite app_nth1 by (rewrite map_length, seq_length; lia).
+    cbn [Nat.mul Nat.add]. rewrite (nth_map_seq (f s) d cols 0 c Hc). rewrite Nat.add_0_r. reflexivity.
+  - rewrite app_nth2 by (rewrite map_length, seq_length; lia).
+    rewrite map_length, seq_length.
+    replace (S r * cols + c - cols)%nat with (r * cols + c)%nat by lia.
+    rewrite IH by lia. f_equal. lia.
+Qed.
+
+Lemma real_ids_length rows cols : length (real_ids rows cols) = (rows * cols)%nat.
+Proof. unfold real_ids. rewrite rows_concat_length, seq_length. reflexivity. Qed.
+
+Lemma real_ids_nth rows cols r c : (r < rows)%nat -> (c < cols)%nat ->
+  nth (r * cols + c) (real_ids rows cols) EmptyString = well_id r c.
+Proof. intros Hr Hc. unfold real_ids. rewrite rows_concat_nth by assumption. reflexivity. Qed.
+
+Lemma all_finite_map xs : forall vs, all_finite xs = Some vs -> xs = map XQ vs.
+Proof.
+  induction xs as [|x r IH]; intros vs H; cbn [all_finite] in H.
+  - inversion H. reflexivity.
+  - destruct x as [v| | |]; cbn [xfinite] in H; try discriminate.
+    destruct (all_finite r) as [vs'|]; [|discriminate]. inversion H; subst.
+    cbn [map]. rewrite (IH vs' eq_refl). reflexivity.
+Qed.
+
+Lemma size_ok_pos p n : size_ok p = Some n -> (1 <= n)%nat.
+Proof.
+  unfold size_ok. destruct p as [z|]; [|discriminate].
+  destruct (1 <=? z)%Z eqn:E; [|discriminate]. intro H. inversion H; subst.
+  apply Z.leb_le in E. lia.
+Qed.
+
+Lemma existsb_false_Forall {A} (p : A -> bool) l : existsb p l = false -> Forall (fun x => p x = false) l.
+Proof.
+  induction l as [|x r IH]; intro H; [constructor|]. cbn [existsb] in H.
+  apply orb_false_iff in H. destruct H as [H1 H2]. constructor; [exact H1|apply IH; exact H2].
+Qed.
+
+(** what an accepted [mk_labware] call has established *)
+Lemma mk_labware_ok a L : mk_labware a = Ok L ->
+  exists rows cols vrows vs,
+    lw_geom L = {| g_rows := rows; g_cols := cols; g_vrows := vrows |} /\
+    wf_geom (lw_geom L) /\ 0 <= lw_min L /\ lw_name L = a_name a /\
+    size_ok (a_rows a) = Some rows /\ size_ok (a_cols a) = Some cols /\
+    length vs = (rows * cols)%nat /\ Forall (fun v => 0 <= v) vs /\
+    lw_vols L = map Qred vs /\
+    (forall xs, a_init a = Some (A1 xs) -> xs = map XQ vs) /\
+    initial_composition (a_name a) (1 <? rows)%nat (rows * cols) (a_names a)
+      (real_ids rows cols) (map Qred vs) 0 [] = Ok (lw_comp L).
+Proof.
+  unfold mk_labware.
+  destruct (size_ok (a_rows a)) as [rows|] eqn:ER; [|discriminate].
+  destruct (size_ok (a_cols a)) as [cols|] eqn:EC; [|discriminate].
+  destruct (26 <? rows)%nat eqn:E26; [discriminate|].
+  destruct (xfinite (a_min a)) as [mn|]; [|discriminate].
+  destruct (xfinite (a_max a)) as [mx|]; [|discriminate].
+  destruct (Qltb mn 0) eqn:Emn; [discriminate|].
+  destruct (Qle_bool mx mn); [discriminate|]. cbv zeta.
+  match goal with |- match ?vr with Ok _ => _ | Err _ => _ end = _ -> _ =>
+    destruct vr as [vrows|e] eqn:EVR; [|discriminate] end.
+  match goal with |- match ?f with Some _ => _ | None => _ end = _ -> _ =>
+    destruct f as [xs|] eqn:EF; [|discriminate] end.
+  destruct (all_finite xs) as [vs|] eqn:EAF; [|discriminate].
+  destruct (existsb (fun v => Qltb v 0) vs) eqn:Eneg; [discriminate|].
+  destruct (existsb (fun v => Qgtb v mx) vs); [discriminate|].
+  match goal with |- (if ?b then _ else _) = _ -> _ => destruct b; [discriminate|] end.
+  fold (real_ids rows cols).
+  destruct (initial_composition (a_name a) (1 <? rows)%nat (rows * cols) (a_names a)
+              (real_ids rows cols) (map Qred vs) 0 []) as [comp|e] eqn:EIC; [|discriminate].
+  intro H. inversion H; subst L. clear H.
+  cbn [lw_geom lw_min lw_name lw_vols lw_comp].
+  pose proof (all_finite_map xs vs EAF) as Exs.
+  assert (Hlen : length vs = (rows * cols)%nat).
+  { assert (Hx : length xs = (rows * cols)%nat).
+    { destruct (a_init a) as [[x|xs0|rs]|].
+      - inversion EF. apply repeat_length.
+      - destruct (length xs0 =? rows * cols)%nat eqn:El; [|discriminate]. inversion EF; subst.
+        apply Nat.eqb_eq. exact El.
+      - destruct (length (concat rs) =? rows * cols)%nat eqn:El; [|discriminate]. inversion EF; subst.
+        apply Nat.eqb_eq. exact El.
+      - inversion EF. apply repeat_length. }
+    rewrite Exs, map_length in Hx. exact Hx. }
+  exists rows, cols, vrows, vs.
+  split; [reflexivity|]. split.
+  { (* wf_geom *)
+    unfold wf_geom. cbn [g_rows g_cols g_vrows].
+    pose proof (size_ok_pos _ _ ER) as Hr. pose proof (size_ok_pos _ _ EC) as Hc.
+    apply Nat.ltb_ge in E26. split; [lia|]. split; [exact Hc|].
+    destruct (a_vrows a) as [p|]; [|inversion EVR; exact I].
+    destruct (rows =? 1)%nat eqn:E1; cbn [negb] in EVR; [|discriminate].
+    destruct (size_ok p) as [v|] eqn:EP; [|discriminate].
+    destruct (26 <? v)%nat eqn:Ev; [discriminate|]. inversion EVR; subst.
+    apply Nat.eqb_eq in E1. apply Nat.ltb_ge in Ev. pose proof (size_ok_pos _ _ EP). lia. }
+  split; [apply Qltb_false'; exact Emn|]. split; [reflexivity|].
+  split; [reflexivity|]. split; [reflexivity|]. split; [exact Hlen|].
+  split.
+  { apply existsb_false_Forall in Eneg. eapply Forall_impl; [|exact Eneg].
+    intros v Hv. cbv beta in Hv. apply Qltb_false'. exact Hv. }
+  split; [reflexivity|]. split; [|exact EIC].
+  intros xs0 Hinit. rewrite Hinit in EF.
+  destruct (length xs0 =? rows * cols)%nat; [|discriminate]. congruence.
+Qed.
+
+Lemma nth_map_Qred vs j : nth j (map Qred vs) 0 == nth j vs 0.
+Proof.
+  revert j. induction vs as [|v r IH]; intro j; [destruct j; reflexivity|].
+  destruct j as [|j]; cbn [map nth]; [apply Qred_correct|apply IH].
+Qed.
+
+(** C05_invariant / C05_names: the initial state.  Every non-empty well consists 100 % of one named
+    component, empty wells have no composition. *)
+Lemma mk_labware_init a L : mk_labware a = Ok L ->
+  mix_inv L /\
+  (forall r c, (r < g_rows (lw_geom L))%nat -> (c < g_cols (lw_geom L))%nat ->
+     let i := (r * g_cols (lw_geom L) + c)%nat in
+     (vol_at L i == 0 -> forall k, frac L k i = 0) /\
+     (~ vol_at L i == 0 ->
+      forall k, frac L k i =
+        if String.eqb (init_name (a_name a) (1 <? g_rows (lw_geom L))%nat (a_names a) (well_id r c)) k
+        then 1 else 0)) /\
+  (forall i, (i < n_wells (lw_geom L))%nat ->
+     (vol_at L i == 0 -> well_sum L i == 0) /\ (~ vol_at L i == 0 -> fully_known L i)).
+Proof.
+  intro H. destruct (mk_labware_ok a L H)
+    as (rows & cols & vrows & vs & Eg & Hwf & Hmin & _ & _ & _ & Hlen & Hnn & Ev & _ & EIC).
+  assert (En : n_wells (lw_geom L) = (rows * cols)%nat) by (rewrite Eg; reflexivity).
+  destruct (initial_composition_top _ _ _ _ _ _ _
+              (eq_trans (map_length Qred vs) Hlen) (real_ids_length rows cols) EIC)
+    as (R1 & R2 & R3 & R4).
+  assert (Hz : forall j, Qeq_bool (nth j (map Qred vs) 0) 0 = true <-> vol_at L j == 0).
+  { intro j. unfold vol_at. rewrite Ev. apply Qeq_bool_iff. }
+  assert (Hcol : forall j, (j < rows * cols)%nat ->
+            (vol_at L j == 0 -> forall k, frac L k j = 0) /\
+            (~ vol_at L j == 0 -> forall k, frac L k j =
+               if String.eqb (init_name (a_name a) (1 <? rows)%nat (a_names a)
+                                (nth j (real_ids rows cols) EmptyString)) k then 1 else 0)).
+  { intros j Hj. split; intros Hv k; unfold frac; rewrite (R4 k j Hj).
+    - apply Hz in Hv. rewrite Hv. reflexivity.
+    - destruct (Qeq_bool (nth j (map Qred vs) 0) 0) eqn:E; [apply Hz in E; contradiction|reflexivity]. }
+  assert (Hsum : forall i, (i < rows * cols)%nat ->
+            (vol_at L i == 0 -> well_sum L i == 0) /\ (~ vol_at L i == 0 -> well_sum L i == 1)).
+  { intros i Hi. destruct (Hcol i Hi) as [H0 H1]. split; intro Hv; unfold well_sum.
+    - apply zero_col_sum; [intro k; apply (H0 Hv k)|exact R2].
+    - eapply indicator_col_sum; [exact R2|]. intro k. apply (H1 Hv k). }
+  split; [|split].
+  - split.
+    + split; [exact Hwf|]. split; [rewrite Ev, map_length, En; exact Hlen|]. split; [exact Hmin|].
+      rewrite Ev. apply Forall_map. eapply Forall_impl; [|exact Hnn].
+      intros v Hv. cbv beta. rewrite Qred_correct. exact Hv.
+    + split; [rewrite En; exact R1|]. split; [exact R2|]. split; [exact R3|].
+      intros i Hi. rewrite En in Hi. destruct (Hsum i Hi) as [H0 H1].
+      destruct (Qeq_dec (vol_at L i) 0) as [E|N]; [rewrite (H0 E)|rewrite (H1 N)]; lra.
+  - intros r c Hr Hc. rewrite Eg in Hr, Hc |- *. cbn [g_rows g_cols] in *. cbv zeta.
+    assert (Hj : (r * cols + c < rows * cols)%nat) by nia.
+    destruct (Hcol _ Hj) as [H0 H1]. rewrite real_ids_nth in H1 by assumption. split; assumption.
+  - intros i Hi. rewrite En in Hi. exact (Hsum i Hi).
+Qed.
